@@ -236,6 +236,12 @@ def _boundary_grid_with_n(main_domain, domain_a, domain_b, n, params, device):
     sum_of_correct = a_correct + b_correct
     if sum_of_correct == n:
         return grid_a[on_bound_a,] | grid_b[on_bound_b,]
+    if sum_of_correct == 0:
+        # no grid point of either operand lies on the boundary of the result (small n),
+        # the surface can not be estimated from the grids: use random points
+        return _random_points_boundary(
+            main_domain, domain_a, domain_b, n, params, device
+        )
     # scale the n so that more or fewer points are sampled and try again
     # to get a better grid. For the scaling we approximate the volume of the
     # the main domain.
